@@ -19,8 +19,14 @@ def wf : Layer → Bool
   | .tcp _ _ _ _ _ _ _ opts => opts.all (fun (t, d) => if t ≤ 1 then d.isEmpty else (!d.isEmpty || t == 4))
   | .sll _ _ _ addr _ => addr.length == 8
   | .pppoe _ _ _ tags => decide ((tags.map (fun e => e.2.length + 4)).sum < 65536)
-  | .llc .. | .radiotap .. | .eapol .. | .opaque .. => false
+  | .opaque .. => false
   | _ => true
+
+/-- the FLAGS field of the default `RadioTap` object decides the trailer: 4 octets of FCS iff the FCS flag is on -/
+theorem radiotapTrailer_default (fcs : Bool) : radiotapTrailer (radiotapPayload fcs) = if fcs then 4 else 0 := by
+  cases fcs <;> decide
+
+theorem length_radiotapPayload (fcs : Bool) : (radiotapPayload fcs).length = 22 := rfl
 
 @[simp] theorem length_zeros (n : Nat) : (zeros n).length = n := by simp [zeros]
 @[simp] theorem length_w16 (v : Nat) : (w16 v).length = 2 := rfl
@@ -149,6 +155,24 @@ theorem length_writeExtStruct (exts : List (Nat × Nat × Bytes)) :
   rw [length_extTail, List.length_append]
   simp only [List.length_cons, List.length_nil]; omega
 
+theorem length_rfc4884Tail_icmp (type code id seq a b c : Nat) (lf : Bool) (isz : Option Nat)
+    (exts : List (Nat × Nat × Bytes)) :
+    (rfc4884Tail 4 isz exts).length = trailerSize (.icmp type code id seq a b c lf exts) isz := by
+  unfold rfc4884Tail trailerSize
+  by_cases he : exts.isEmpty = true
+  · simp [he]
+  · simp only [he, Bool.false_eq_true, if_false, List.length_append, length_writeExtStruct]
+    cases isz <;> simp <;> omega
+
+theorem length_rfc4884Tail_icmp6 (type code id seq : Nat) (lf : Bool) (isz : Option Nat)
+    (exts : List (Nat × Nat × Bytes)) :
+    (rfc4884Tail 8 isz exts).length = trailerSize (.icmp6 type code id seq lf exts) isz := by
+  unfold rfc4884Tail trailerSize
+  by_cases he : exts.isEmpty = true
+  · simp [he]
+  · simp only [he, Bool.false_eq_true, if_false, List.length_append, length_writeExtStruct]
+    cases isz <;> simp <;> omega
+
 theorem pppoe_tags_aux (tags : List (Nat × Bytes)) :
     (tags.foldr (fun (t, d) acc => w16 t ++ w16 d.length ++ d ++ acc) []).length
       = (tags.map (fun e => e.2.length + 4)).sum := by
@@ -197,20 +221,12 @@ theorem write_length (l : Layer) (rest : List Layer) (inner : Bytes) (parent : O
     simp only [write, headerSize, trailerSize, length_udpTail, List.length_append, length_w16,
       List.length_cons, List.length_nil]; omega
   | icmp type code id seq a b c lenflag exts =>
-    simp only [write, headerSize, trailerSize, length_icmpTail, List.length_append, length_w16,
-      List.length_cons, List.length_nil]
-    by_cases he : exts.isEmpty = true
-    · simp only [he, if_true, List.length_nil]
-      split <;> (try split) <;> simp <;> omega
-    · simp only [he, if_false, List.length_append, length_writeExtStruct]
-      cases hr : rest.isEmpty <;> simp [length_writeExtStruct] <;> (split <;> (try split) <;> simp <;> omega)
+    simp only [write, headerSize, length_icmpTail, List.length_append, length_w16,
+      List.length_cons, List.length_nil, length_rfc4884Tail_icmp type code id seq a b c lenflag]
+    split <;> (try split) <;> simp <;> omega
   | icmp6 type code id seq lenflag exts =>
-    simp only [write, headerSize, trailerSize, length_icmp6Tail, List.length_append, length_w16,
-      List.length_cons, List.length_nil]
-    by_cases he : exts.isEmpty = true
-    · simp only [he, if_true, List.length_nil]
-    · simp only [he, if_false, List.length_append, length_writeExtStruct]
-      cases hr : rest.isEmpty <;> simp [length_writeExtStruct] <;> omega
+    simp only [write, headerSize, length_icmp6Tail, List.length_append, length_w16,
+      List.length_cons, List.length_nil, length_rfc4884Tail_icmp6 type code id seq lenflag]
   | raw d => simp [write, headerSize, trailerSize]
   | pppoe code sess plen tags =>
     simp only [wf, decide_eq_true_eq] at hwf
@@ -227,9 +243,11 @@ theorem write_length (l : Layer) (rest : List Layer) (inner : Bytes) (parent : O
     simp [write, headerSize, trailerSize, hwf]; omega
   | ah spi seq icv nh => simp [write, headerSize, trailerSize]; omega
   | esp spi seq => simp [write, headerSize, trailerSize]; omega
-  | llc _ _ => simp [wf] at hwf
-  | radiotap _ => simp [wf] at hwf
-  | eapol _ _ => simp [wf] at hwf
+  | llc _ _ => simp [write, headerSize, trailerSize]; omega
+  | radiotap fcs =>
+    simp only [write, headerSize, trailerSize, radiotapTrailer_default, length_radiotapPayload]
+    cases fcs <;> cases rest <;> simp [length_radiotapPayload] <;> omega
+  | eapol _ _ => simp [write, headerSize, trailerSize]; omega
   | «opaque» _ _ _ => simp [wf] at hwf
 
 /-- the model of `PDU::serialize` is size-exact: it writes `PDU::size()` octets -/
@@ -424,9 +442,20 @@ theorem write_frame (l : Layer) (rest : List Layer) (inner : Bytes) (parent : Op
     refine ⟨?H17, [], ?h1x17, ?h2x17⟩
     case h2x17 => simp only [write, List.append_nil]; rfl
     case h1x17 => simp [headerSize]
-  | llc _ _ => simp [wf] at hwf
-  | radiotap _ => simp [wf] at hwf
-  | eapol _ _ => simp [wf] at hwf
+  | llc _ _ =>
+    refine ⟨?H18, [], ?h1x18, ?h2x18⟩
+    case h2x18 => simp only [write, List.append_nil]; rfl
+    case h1x18 => simp [headerSize]
+  | radiotap fcs =>
+    simp only [write, headerSize]
+    generalize (trailerSize (Layer.radiotap fcs) _) = tr
+    by_cases h : tr > 0 ∧ (!rest.isEmpty) = true
+    · rw [if_pos h]; exact ⟨_, _, by simp [radiotapPayload], rfl⟩
+    · rw [if_neg h]; exact ⟨_, _, by simp [radiotapPayload], rfl⟩
+  | eapol _ _ =>
+    refine ⟨?H21, [], ?h1x21, ?h2x21⟩
+    case h2x21 => simp only [write, List.append_nil]; rfl
+    case h1x21 => simp [headerSize]; omega
   | «opaque» _ _ _ => simp [wf] at hwf
 
 /-- parent seen by the first layer of `tail` when `pre` is in front of it -/
